@@ -2,7 +2,7 @@
    a case is an operation name and a list of generic arguments; the answer is a generic
    output value.  The OCaml driver (eval/driver.ml) only parses / prints these types. *)
 From Coq Require Import String.
-From ArrRs Require Import Base Arr Index Axis Broadcast Lift Split Reduce Sort Join Reorder Edit.
+From ArrRs Require Import Base Arr Index Axis Broadcast Lift Split Reduce Sort Join Reorder Edit Bits.
 Open Scope string_scope.
 Open Scope list_scope.
 
@@ -398,9 +398,28 @@ Definition table_edit : list (string * (list arg -> out)) :=
        | _ => OBad end)
   ].
 
+(* ---- C19: bit packing ---- *)
+Definition order_of_arg (a : arg) : option (res bit_order) :=
+  match a with
+  | AN => Some (Ok Big) | AZ 0 => Some (Ok Big) | AZ 1 => Some (Ok Little) | AS s => Some (parse_bit_order s)
+  | _ => None end.
+
+Definition table_bits : list (string * (list arg -> out)) :=
+  [ ("unpack_bits", fun args => match args with
+       | [AA s e; ax; cnt; o] => match optz ax, optz cnt, order_of_arg o with
+           | Some ax, Some cnt, Some o => orarr (unpack_bits (mka s e) ax cnt o) | _, _, _ => OBad end
+       | _ => OBad end)
+  ; ("pack_bits", fun args => match args with
+       | [AA s e; ax; o] => match optz ax, order_of_arg o with
+           | Some ax, Some o => orarr (pack_bits (mka s e) ax o) | _, _ => OBad end
+       | _ => OBad end)
+  ; ("binary_repr", fun args => match args with
+       | [AZ w; AZ n] => OL (binary_repr (Z.to_nat w) n) | _ => OBad end)
+  ].
+
 Definition table : list (string * (list arg -> out)) :=
   table_index ++ table_axis ++ table_broadcast ++ table_ew2 ++ table_ew1 ++ table_ops ++ table_reduce ++ table_sort
-  ++ table_join ++ table_reorder ++ table_edit.
+  ++ table_join ++ table_reorder ++ table_edit ++ table_bits.
 
 Fixpoint lookup (name : string) (t : list (string * (list arg -> out))) : option (list arg -> out) :=
   match t with
